@@ -269,7 +269,7 @@ impl Group for C05 {
                 "cp 2 0 1000 1999000 1000000 0 0",
                 "hold 0 0 2999000 0 0 0 1",
             ]),
-            // finding C05-S1: max_feerate_per_kw = u32::MAX behaves as "no bound" (the whole 50 BTC is fee)
+            // former finding S1 (fixed by 3751e9c): with max_feerate_per_kw = u32::MAX the whole 50 BTC as fee must be refused
             v(&[
                 "policy 0 4 2016 10000000000 10000 1000 16777216 0 253 4294967295 222000 0",
                 "setup 0 5000000000 0 6 7 1 0 0 0",
